@@ -404,6 +404,21 @@ fn gen_case(rng: &mut Rng, accepted: &[RegCase], u: &[MVer], idx: usize, pol: &T
         3 if exotic => {
             ep.range = MRange::Until(MVer::min());
         }
+        8 | 9 => {
+            // a trailing wildcard where an accepted endpoint has a single-segment variable
+            // OF THE SAME NAME at the same position (two kinds of segment at one
+            // position), for another method so that nothing else can refuse it
+            let cands: Vec<&MEndpoint> = table.iter().filter(|e| matches!(e.segs.last(), Some(TSeg::Var(v)) if v == "x") && e.var_names() == ["x".to_string()]).collect();
+            if !cands.is_empty() {
+                let b = (*rng.pick(&cands)).clone();
+                ep.segs = b.segs.clone();
+                ep.segs.pop();
+                ep.segs.push(TSeg::Wild("x".into()));
+                ep.trailing_slash = false;
+                let others: Vec<&&str> = METHODS.iter().filter(|m| **m != b.method).collect();
+                ep.method = rng.pick(&others).to_string();
+            }
+        }
         6 | 7 => {
             // bounds that differ in build metadata only: equal in precedence, so this is
             // the one-version range holding v (or, for from/until, the same bound)
